@@ -6,6 +6,8 @@
 (*   NtsPacket_deep.cfg  <= 5 fields                                       *)
 (*   NtsPacket_phcookie.cfg  as _exh with placeholders typed as cookies     *)
 (*                       (the code before the repair of C11/C14's finding) *)
+(*   NtsPacket_unhardened.cfg  as _exh for the decoders before the          *)
+(*                       hardening (loop / panic outcomes)                 *)
 (*   NtsPacket_gen.cfg   case generator: the shapes the real encoder can   *)
 (*                       emit (1..8 fields), representative replacements   *)
 (*   NtsPacket_f_*.cfg   fault switches: Sound must FAIL (vacuity check)   *)
